@@ -159,6 +159,7 @@ func runJob(ld *Loaded, base *sym.State, j Job, opt Options) JobResult {
 		r.LoopBound = j.H.Loop
 	}
 	r.Prop = opt.Prop
+	r.Relabel = j.H.Relabel
 	r.BlockIsViolation = j.H.NoBlock && j.H.Prop == opt.Prop
 	if j.H.NoPanicCheck || j.H.Prop != opt.Prop {
 		r.PanicIsViolation = false
